@@ -42,4 +42,5 @@ def step (_ : Unit) (ws : List String) : Unit × String :=
       | none => "bad-op"
   | _ => "bad-op")
 
+def init : Unit := ()
 end Driver.C09
